@@ -45,6 +45,20 @@ func verifWildParamSchema(p string) *openapi3.SchemaRef {
 	return prim("string")
 }
 
+// verifFootprint: run the validation calls of these harnesses under the footprint monitor of C15
+// (the parameter definition and the options are shared; the request is the call's own).
+var verifFootprint bool
+
+func verifValidateParam(input *RequestValidationInput, param *openapi3.Parameter) {
+	if verifFootprint {
+		verifSharedBegin(param, input.Options)
+	}
+	_ = ValidateParameter(context.Background(), input, param)
+	if verifFootprint {
+		verifSharedEnd()
+	}
+}
+
 func verifAnyText(name string, max int) string {
 	s := verifNondetString(name, max)
 	for i := 0; i < len(s); i++ {
@@ -92,7 +106,7 @@ func verifH_C10_params() {
 	case "header":
 		input.Request.Header["P"] = []string{raw}
 	}
-	_ = ValidateParameter(context.Background(), input, param)
+	verifValidateParam(input, param)
 	verifReach("end")
 }
 
@@ -204,7 +218,7 @@ func verifH_C10_content_params() {
 	case "cookie":
 		input.Request.Header["Cookie"] = []string{"p=" + vals[0]}
 	}
-	_ = ValidateParameter(context.Background(), input, param)
+	verifValidateParam(input, param)
 	verifReach("end")
 }
 
@@ -251,7 +265,7 @@ func verifH_C10_deepobject() {
 	}
 	input := &RequestValidationInput{Request: &http.Request{Method: "GET", Header: http.Header{}, URL: &url.URL{Path: "/"}}, QueryParams: q, PathParams: map[string]string{},
 		Options: &Options{MultiError: verifNondetBool("multi"), SkipSettingDefaults: true}}
-	_ = ValidateParameter(context.Background(), input, param)
+	verifValidateParam(input, param)
 	verifReach("end")
 }
 
@@ -287,7 +301,7 @@ func verifH_C10_recursive_param() {
 	}
 	// known finding: decodeValue follows the composition back into the same schema without a guard
 	verifKnown("C10-recursive-composition-parameter", true)
-	_ = ValidateParameter(context.Background(), input, param)
+	verifValidateParam(input, param)
 	verifReach("end")
 }
 
